@@ -9,7 +9,8 @@ Translated (Python `ast`, working tree):
   * `_check_channels`: the literals / names of the test `(c < lo).any() or (c > self.HI).any() or c.size > self.SZ`
     and of `c.clip(lo', self.HI')[:self.TK]`, and `np.arange(1, self.CHANNELS+1)`;
   * set_data / get_data: that the chunk constant is `self.MAX_CHUNK_LEN` and the memory constant `self.MAX_MEMORY_LEN`
-    (names only; the values come from the class constants).
+    (names only; the values come from the class constants), that set_data tests `data.shape[-1]` and truncates with
+    `data[..., :lim]`, and that it does so after the conversion to an array and before the tiling.
 Anything of another shape raises AnchorMissing.
 """
 import ast
@@ -175,7 +176,8 @@ def generate(repo):
                f"def chClipLo : Int := {clo}\ndef chClipHi : Int := {chi}\ndef chTake : Nat := {tk}\n")
     # set_data / get_data use the expected constants
     sd, gd = ast.unparse(meth("set_data")), ast.unparse(meth("get_data"))
-    need_sd = ["len(data) > self.MAX_MEMORY_LEN - start_addrs + 1", "data[:self.MAX_MEMORY_LEN - start_addrs + 1]",
+    need_sd = ["data.shape[-1] > self.MAX_MEMORY_LEN - start_addrs + 1", "data[..., :self.MAX_MEMORY_LEN - start_addrs + 1]",
+               "np.array(data, dtype=bool).astype(np.uint8)",
                "data_ch_i.size > self.MAX_CHUNK_LEN",
                "np.split(data_ch_i, np.arange(self.MAX_CHUNK_LEN, data_ch_i.size, self.MAX_CHUNK_LEN))"]
     need_gd = ["start_addrs < 1 or start_addrs > self.MAX_MEMORY_LEN", "np.clip(start_addrs, 1, self.MAX_MEMORY_LEN)",
@@ -185,6 +187,9 @@ def generate(repo):
     for s in need_sd:
         if s not in sd:
             raise AnchorMissing(f"set_data: `{s}`")
+    # the conversion to an array precedes the memory-limit test (the test acts on the last axis of the array)
+    if not sd.index("np.array(data, dtype=bool).astype(np.uint8)") < sd.index("data.shape[-1] >") < sd.index("np.tile(data"):
+        raise AnchorMissing("set_data: order convert -> limit test -> tile")
     for s in need_gd:
         if s not in gd:
             raise AnchorMissing(f"get_data: `{s}`")
